@@ -72,3 +72,38 @@ func vTransOK(t pr.SDimensions) bool {
 //@   call New#1 assert arg0 == 1 && arg1 == 0 && arg2 == 0 && arg3 == 1 && arg4 == originX && arg5 == originY
 //@   loop 1 invariant rangeindex < len(trans)
 //@   loop 1 decreases len(trans) - rangeindex
+
+// ---------------------------------------------------------------------------
+// C14 / C01: the bookmark outline. skippedLevels is a stack with one entry per open depth
+// holding the number of heading levels skipped at that depth, so that
+//   (number of open depths) + (levels skipped) == level of the previous bookmark.
+// Under that invariant the consistency check in the function (`panic("expected depth >= 1 and
+// depth == len(skippedLevels) ...")`) can never fire, the stack is never popped when empty and
+// the parent list of the new node always exists — for every sequence of bookmark levels >= 1
+// (bookmark-level is validated as an integer >= 1).
+//@ func (Document).makeBookmarkTree
+//@   props C14 C01
+//@   nopanic
+//@   requires forall(p, 0, len(d.Pages), forall(k, 0, len(d.Pages[p].bookmarks), d.Pages[p].bookmarks[k].level >= 1))
+//@   modifies anything
+//@   loop 1 invariant forall(p, 0, len(d.Pages), forall(k, 0, len(d.Pages[p].bookmarks), d.Pages[p].bookmarks[k].level >= 1))
+//@   loop 1 invariant previousLevel == len(skippedLevels) + sum(skippedLevels, 0, len(skippedLevels))
+//@   loop 1 invariant len(lastByDepth) == len(skippedLevels) + 1 && forall(k, 0, len(lastByDepth), lastByDepth[k] != nil)
+//@   loop 1 decreases len(d.Pages) - rangeindex
+//@   loop 2 invariant forall(p, 0, len(d.Pages), forall(k, 0, len(d.Pages[p].bookmarks), d.Pages[p].bookmarks[k].level >= 1))
+//@   loop 2 invariant forall(k, 0, len(page.bookmarks), page.bookmarks[k].level >= 1)
+//@   loop 2 invariant previousLevel == len(skippedLevels) + sum(skippedLevels, 0, len(skippedLevels))
+//@   loop 2 invariant len(lastByDepth) == len(skippedLevels) + 1 && forall(k, 0, len(lastByDepth), lastByDepth[k] != nil)
+//@   loop 2 decreases len(page.bookmarks) - rangeindex
+//@   loop 3 invariant forall(p, 0, len(d.Pages), forall(k, 0, len(d.Pages[p].bookmarks), d.Pages[p].bookmarks[k].level >= 1))
+//@   loop 3 invariant forall(k, 0, len(page.bookmarks), page.bookmarks[k].level >= 1)
+//@   loop 3 invariant forall(k, 0, len(lastByDepth), lastByDepth[k] != nil)
+//@   loop 3 invariant len(skippedLevels) + sum(skippedLevels, 0, len(skippedLevels)) + temp == previousLevel + level && level >= 1
+//@   loop 3 invariant len(skippedLevels) + 1 <= len(lastByDepth)
+//@   loop 3 decreases len(skippedLevels)
+//@   loop 4 invariant forall(p, 0, len(d.Pages), forall(k, 0, len(d.Pages[p].bookmarks), d.Pages[p].bookmarks[k].level >= 1))
+//@   loop 4 invariant forall(k, 0, len(page.bookmarks), page.bookmarks[k].level >= 1)
+//@   loop 4 invariant forall(k, 0, len(lastByDepth), lastByDepth[k] != nil)
+//@   loop 4 invariant sum == sum(skippedLevels, 0, rangeindex + 1) && len(skippedLevels) <= len(lastByDepth)
+//@   loop 4 invariant len(skippedLevels) + sum(skippedLevels, 0, len(skippedLevels)) == level && level >= 1
+//@   loop 4 decreases len(skippedLevels) - rangeindex
